@@ -1592,3 +1592,45 @@ Proof.
   split; [cbn [sp m' with_sp with_stack]; lia|]. split; [intros j _; reflexivity|].
   repeat split.
 Qed.
+
+(* ============================================================ non-vacuity *)
+(* (if (define x '(#t)) x #f) : define, if, global reference, quote, constant *)
+Definition ex_datum : cell := CPair (CBool true) CNil.
+Definition ex_e : expr :=
+  EIf (EDefine (S_ "x") (EQuote ex_datum)) (EVar (S_ "x")) (EConst (CBool false)).
+Definition rho_empty : env := fun _ => None.
+
+Lemma minv_vm_empty c : 0 < c -> minv (vm_empty c).
+Proof.
+  intros Hc. constructor.
+  - apply heap_inv_new. exact Hc.
+  - split; intros; discriminate.
+  - cbn. reflexivity.
+Qed.
+
+Lemma ex_hypotheses :
+  wf_expr ex_e /\ minv (vm_empty 8192) /\ genv_rel rho_empty (vm_empty 8192) /\
+  ref_eval bsem_not rho_empty ex_e (RDatum ex_datum) (upd rho_empty (S_ "x") (RDatum ex_datum)).
+Proof.
+  split; [cbn; repeat split|]. split; [apply minv_vm_empty; reflexivity|].
+  split; [intros x r H; discriminate|].
+  eapply RE_if_t.
+  - apply RE_define. apply RE_quote.
+  - reflexivity.
+  - apply RE_var; [reflexivity|discriminate].
+Qed.
+
+(* (not (not '#f)) needs a machine whose global `not` is the builtin; the reference
+   derivation: *)
+Definition ex_app : expr := EApp (EVar (S_ "not")) [EApp (EVar (S_ "not")) [EQuote (CBool false)]].
+Lemma ex_app_ref rho : rho (S_ "not") = Some (RBuiltin B_NOT) ->
+  wf_expr ex_app /\ ref_eval bsem_not rho ex_app (RDatum (CBool false)) rho.
+Proof.
+  intros H. split; [cbn; repeat split|].
+  eapply RE_app; [|apply RE_var; [exact H|discriminate]|].
+  - eapply RE_cons; [|apply RE_nil].
+    eapply RE_app; [|apply RE_var; [exact H|discriminate]|].
+    + eapply RE_cons; [apply RE_quote|apply RE_nil].
+    + unfold bsem_not. rewrite N.eqb_refl. reflexivity.
+  - unfold bsem_not. rewrite N.eqb_refl. reflexivity.
+Qed.
